@@ -12,25 +12,28 @@
        [else branch]    marker = 2 ; <access if abr = 2>      (explicit comparisons only)
 
    case = EbpfRun's case record plus
-          op     "read"   dst = <packet variable>          (dst: dsz bytes at map offset dst)
-                 "write"  <packet variable> = src          (src: 8 bytes at map offset src)
+          op     "read"   other = <packet variable>        (other: a map variable)
+                 "write"  <packet variable> = other        (other: a map or another packet variable)
                  "const"  <packet variable> = k            (k: constant of the program)
                  "iadd"   <packet variable> += k           (k: constant of the program)
-                 "iaddv"  <packet variable> += src
+                 "iaddv"  <packet variable> += other
                  "none"   no access, only the markers
           fmt    the struct format of the packet variable, as a sequence of characters
           p      its offset in the packet
+          okind, o, ofmt   the OTHER operand of the statement: a variable of struct format ofmt (any
+                 of the 32 formats: it may carry a byte order of its own) at offset o of array map 1
+                 (okind = "map") or of the packet (okind = "pkt", not overlapping the packet variable)
           k      8-byte word (const, iadd)
           guard  "min" (minimumPacketSize = n) or "gt" "ge" "lt" "le" (with packetSize <op> n)
           n      the guard's size
           abr    the marker value of the branch that contains the access (1 body, 2 else)
-          need   the number of packet bytes the accesses of that branch need (p + size; 0 for none)
-          mark, dst, dsz, src   map offsets / size as above
+          need   the number of packet bytes the accesses of that branch need (0 for none)
+          mark   map offset of the marker
           built  FALSE if the generator raised instead of emitting a program for this access (the
                  case then has no program; one such case per refused program)
 
-   Everything expected is computed here from the case's inputs (packet, map contents, format,
-   offset) with Bytes.tla; Python only records what the generator emitted.                    *)
+   Everything expected is computed here from the case's inputs (packet, map contents, formats,
+   offsets) with Bytes.tla; Python only records what the generator emitted.                    *)
 EXTENDS EbpfRun, Bytes
 
 VARIABLE fin                    \* <<>> before the run, then Final(case) = [c |-> cpu, m |-> memory]
@@ -48,22 +51,30 @@ Done == fin # <<>>
 (* ---- inputs ---- *)
 PLen == Len(K.pkt)
 Arr0 == Mem(K)[ArrR]
-SrcVal == SubSeq(Arr0, K.src + 1, K.src + 8)
-Dst0 == SubSeq(Arr0, K.dst + 1, K.dst + K.dsz)
+OSize == Size(K.ofmt)
+OBytes0 == IF K.okind = "map" THEN SubSeq(Arr0, K.o + 1, K.o + OSize) ELSE Slice(K.pkt, K.o, OSize)
+OtherVal == Unpack(K.ofmt, OBytes0)                   \* the value the other variable holds (struct.unpack)
 Old == Slice(K.pkt, K.p, Size(K.fmt))                 \* only meaningful when PLen >= K.need
-(* the case is inside the property's domain: a format of the list, an access inside the packet
-   bytes the guard vouches for, a value struct.pack accepts *)
+PEnd == K.p + Size(K.fmt)
+(* the case is inside the property's domain: formats of the list, accesses inside the packet bytes
+   the guard vouches for, a written value struct.pack accepts *)
 Guaranteed == CASE K.guard \in {"min", "ge"} -> K.n        \* bytes certainly present in the access branch
                 [] K.guard = "gt" -> K.n + 1
                 [] K.guard = "lt" -> K.n
                 [] K.guard = "le" -> K.n + 1
-InDomain == /\ IsFmt(K.fmt)
+Max(a, b) == IF a > b THEN a ELSE b
+UsesOther == K.op \in {"read", "write", "iaddv"}
+InDomain == /\ IsFmt(K.fmt) /\ IsFmt(K.ofmt)
             /\ K.op \in {"read", "write", "const", "iadd", "iaddv", "none"}
-            /\ K.op # "none" => (K.need = K.p + Size(K.fmt) /\ K.need <= Guaranteed /\ K.p >= 0)
+            /\ K.okind \in {"map", "pkt"}
+            /\ K.op = "read" => K.okind = "map"
+            /\ K.op # "none" =>
+                  /\ K.p >= 0 /\ K.need <= Guaranteed
+                  /\ K.need = IF UsesOther /\ K.okind = "pkt" THEN Max(PEnd, K.o + OSize) ELSE PEnd
+            /\ (UsesOther /\ K.okind = "pkt") => (K.o >= 0 /\ (K.o + OSize <= K.p \/ PEnd <= K.o))
             /\ K.abr = (IF K.guard \in {"lt", "le"} THEN 2 ELSE 1)
-            /\ K.op = "write" => InRange(K.fmt, SrcVal)
+            /\ (K.op = "write" /\ (K.okind = "map" \/ PLen >= K.need)) => InRange(K.fmt, OtherVal)
             /\ K.op = "const" => InRange(K.fmt, K.k)
-            /\ K.op = "read" => K.dsz \in {4, 8}
 
 (* ---- observations on the final state ---- *)
 St == fin.c.st
@@ -71,7 +82,7 @@ FPkt == fin.m[RPkt]
 FArr == fin.m[ArrR]
 MarkW == SubSeq(FArr, K.mark + 1, K.mark + 4)
 Mark == IF MarkW[2] = 0 /\ MarkW[3] = 0 /\ MarkW[4] = 0 THEN MarkW[1] ELSE -1
-FDst == SubSeq(FArr, K.dst + 1, K.dst + K.dsz)
+FDst == SubSeq(FArr, K.o + 1, K.o + OSize)               \* read: the other variable afterwards
 Ran == Mark = K.abr                                   \* the branch with the access was taken
 
 (* ---- the property ---- *)
@@ -97,12 +108,13 @@ GuardHolds ==
              /\ PLen < K.need => Mark = 0
         ELSE Mark = (IF BodyCond THEN 1 ELSE 2)
 
-NewField == CASE K.op = "write" -> Pack(K.fmt, SrcVal)
+NewField == CASE K.op = "write" -> Pack(K.fmt, OtherVal)
               [] K.op = "const" -> Pack(K.fmt, K.k)
               [] K.op = "iadd" -> Pack(K.fmt, WAdd(Unpack(K.fmt, Old), K.k))       \* modulo 256^size
-              [] K.op = "iaddv" -> Pack(K.fmt, WAdd(Unpack(K.fmt, Old), SrcVal))
+              [] K.op = "iaddv" -> Pack(K.fmt, WAdd(Unpack(K.fmt, Old), OtherVal))
 ExpPkt == IF Ran /\ K.op \in {"write", "const", "iadd", "iaddv"} THEN Patch(K.pkt, K.p, NewField) ELSE K.pkt
-ExpDst == IF Ran /\ K.op = "read" THEN WTrunc(Unpack(K.fmt, Old), K.dsz) ELSE Dst0
+(* the value read, stored in the other variable's own format (reduced modulo 256^size if narrower) *)
+ExpDst == IF Ran /\ K.op = "read" THEN Pack(K.ofmt, Unpack(K.fmt, Old)) ELSE OBytes0
 (* a write stores exactly struct.pack's bytes at p and touches no other packet byte *)
 PacketExact == (Done /\ St = <<"exit">>) => FPkt = ExpPkt
 (* a read yields the value struct.unpack gives for the bytes at p *)
@@ -122,10 +134,10 @@ Why == (IF St # <<"exit">> THEN <<"fault">> ELSE <<>>)
        \o (IF St = <<"exit">> /\ ~GuardHolds THEN <<"guard">> ELSE <<>>)
        \o (IF St = <<"exit">> /\ ~PacketExact THEN <<"packet">> ELSE <<>>)
        \o (IF St = <<"exit">> /\ ~DestExact THEN <<"dest">> ELSE <<>>)
-FieldOf(pkt) == IF K.op # "none" /\ Len(pkt) >= K.need THEN Slice(pkt, K.p, Size(K.fmt)) ELSE <<>>
+FieldOf(pkt) == IF K.op # "none" /\ Len(pkt) >= PEnd THEN Slice(pkt, K.p, Size(K.fmt)) ELSE <<>>
 (* the packet holds a negative value at p (flag for classifying failures; from the inputs only) *)
-FieldNeg == K.op # "none" /\ PLen >= K.need /\ Signed(K.fmt) /\ WIsNeg(Unpack(K.fmt, Old))
-OthersTouched == \E i \in 1 .. PLen : (i <= K.p \/ i > K.need) /\ FPkt[i] # K.pkt[i]
+FieldNeg == K.op # "none" /\ PLen >= PEnd /\ Signed(K.fmt) /\ WIsNeg(Unpack(K.fmt, Old))
+OthersTouched == \E i \in 1 .. PLen : (i <= K.p \/ i > PEnd) /\ FPkt[i] # K.pkt[i]
 Observe ==
     IF ~Done THEN TRUE
     ELSE IF ~Generated THEN PrintT(<<"VERDICT", cid, FALSE, <<"refused">>, "n/a", [ran |-> FALSE]>>)
